@@ -41,6 +41,8 @@ Admitted(c) ==
     [] c.loc = "cookie" -> c.style = "form" /\ (c.explode => c.shape = "prim")
     [] OTHER -> FALSE
 
+DefaultStyle(loc) == CASE loc = "path" -> "simple" [] loc = "query" -> "form" [] loc = "header" -> "simple" [] loc = "cookie" -> "form"
+
 Locs == {"path", "query", "header", "cookie"}
 Styles == {"simple", "label", "matrix", "form", "spaceDelimited", "pipeDelimited", "deepObject"}
 Shapes == {"prim", "arr", "obj"}
